@@ -99,9 +99,20 @@ def arith(op, a, ea, b, eb):
     return r, e + abs(r) * 2 * U
 
 
+ATOMS = {"negzero": -0.0, "subnormal": 5e-324, "tiny": 1e-300, "huge": 1e300, "mhuge": -1e300, "i62": 2 ** 62, "mi63": -2 ** 63}
+
+
 def eval_term(t, env=None):
     """closed term of the spec (or expression AST with env: name -> python number / list) -> (value, err)"""
     k = t["t"]
+    if k == "atom":
+        return ATOMS[t["a"]], 0.0
+    if k == "val":
+        v = t["v"]
+        if v.get("x"):
+            x = num_of(v)
+            return x, abs(x) * U
+        return eval_term(v["term"], env)
     if k == "num":
         x = num_of(t["v"])
         return x, abs(x) * U
@@ -170,6 +181,8 @@ def compare_number(spec, real, err=0.0):
         w_err = abs(want) * U
     else:
         want, w_err = eval_term(spec["term"])
+        if k == "int":
+            return None if x == want else "value %r, specification says %r" % (x, want)
         if k == "complex":
             want = complex(want)
         elif isinstance(want, complex):
